@@ -426,16 +426,18 @@ def render_weather(root, folder, layout, fcode, series, none="-99.9", heights=No
                     f.write("%s;%s;-----;-----;-----;-----;-----;-----;------;-- -;-\n" % heights)
                 for d, r in recs:
                     f.write(";".join([r["tavg"], r["tmin"], r["tmax"], ("%.1f" % (0.3 + 2.2 * (1 - abs(d.timetuple().tm_yday - 183) / 183.0))) if et0 else none,
-                                      r["rh"], none, r["wind"], none, r["rad"], r["prec"],
+                                      r["rh"], none, r["wind"], r.get("sund", none), r["rad"], r["prec"],
                                       str(d.timetuple().tm_yday)]) + "\n")
         return {"WeatherFile": "'MET_%s.'", "WeatherFileFormat": 0, "WeatherNumHeader": nh, "WeatherFolder": folder, "WeatherNoneValue": none}
     if layout == 1:
         with open(os.path.join(wdir, "%s.csv" % fcode), "w") as f:
-            f.write("iso-date,tmin,tavg,tmax,precip,globrad,wind,relhumid\n-,C,C,C,mm,MJ m-2,m s-1,%\n")
+            sun = any("sund" in r for _, r in series)      # optional sunshine column (hours); absent values = the none value
+            f.write("iso-date,tmin,tavg,tmax,precip,globrad,wind,relhumid%s\n-,C,C,C,mm,MJ m-2,m s-1,%%%s\n" % ((",sunhours", ",h") if sun else ("", "")))
             if heights:
                 f.write("%s,%s,-\n" % heights)
             for d, r in series:
-                f.write(",".join([d.isoformat(), r["tmin"], r["tavg"], r["tmax"], r["prec"], r["rad"], r["wind"], r["rh"]]) + "\n")
+                f.write(",".join([d.isoformat(), r["tmin"], r["tavg"], r["tmax"], r["prec"], r["rad"], r["wind"], r["rh"]]
+                                 + ([r.get("sund", none)] if sun else [])) + "\n")
         return {"WeatherFile": "'%s.csv'", "WeatherFileFormat": 1, "WeatherNumHeader": nh, "WeatherFolder": folder, "WeatherNoneValue": none}
     with open(os.path.join(wdir, "%s.w6d" % fcode), "w") as f:
         f.write("@YYYYJJJ   TMIN    TMAX     RAD    PREC    WIND      RH\n")
